@@ -18,11 +18,13 @@ import (
 	"path/filepath"
 	"sort"
 	"strings"
+	"sync"
 	"syscall"
 	"testing"
 
 	"github.com/restic/restic/internal/global"
 	"github.com/restic/restic/internal/verifkit"
+	"golang.org/x/sys/unix"
 	"pgregory.net/rapid"
 )
 
@@ -42,6 +44,68 @@ type vFSC54 struct {
 	nextIno int
 	log     []string
 	flags   map[string]bool
+	mounts  []string // tmpfs mounts below root (two further devices), unmounted at the end of the case
+}
+
+// unmount detaches the tmpfs mounts of the case (lazily, so that a busy mount cannot keep the
+// scratch directory from being removed).
+func (m *vFSC54) unmount() {
+	for _, p := range m.mounts {
+		_ = unix.Unmount(p, unix.MNT_DETACH)
+	}
+	m.mounts = nil
+}
+
+var vTmpfsProbeC54 struct {
+	once sync.Once
+	ok   bool
+}
+
+// vTmpfsOKC54 reports whether this process may mount a tmpfs (root in the sandbox may).
+func vTmpfsOKC54(dir string) bool {
+	vTmpfsProbeC54.once.Do(func() {
+		p := filepath.Join(dir, "tmpfs-probe")
+		if os.Mkdir(p, 0o755) != nil {
+			return
+		}
+		defer os.Remove(p)
+		if unix.Mount("none", p, "tmpfs", 0, "size=1m") == nil {
+			vTmpfsProbeC54.ok = true
+			_ = unix.Unmount(p, unix.MNT_DETACH)
+		}
+	})
+	return vTmpfsProbeC54.ok
+}
+
+// twoDevices mounts two small tmpfs file systems below the root, each with one hard-link group
+// of two names. The first file created on a fresh tmpfs gets the same inode number on both, so
+// the snapshot holds two different hard-linked files with equal inode numbers on different
+// devices - a restore writes both.
+func (m *vFSC54) twoDevices() {
+	var inos []uint64
+	var devs []uint64
+	for i, d := range []string{"xa", "xb"} {
+		m.fail(os.Mkdir(m.full(d), 0o755))
+		m.fail(unix.Mount("none", m.full(d), "tmpfs", 0, "size=1m"))
+		m.mounts = append(m.mounts, m.full(d))
+		m.ents[d] = &vEntC54{Kind: 'D'}
+		m.nextIno++
+		ino := m.nextIno
+		m.size[ino] = 300 + 1000*i + rapid.IntRange(0, 500).Draw(m.t, "devsize")
+		m.fail(os.WriteFile(m.full(d+"/f"), m.content(ino, m.size[ino]), 0o644))
+		m.fail(os.Link(m.full(d+"/f"), m.full(d+"/g")))
+		m.ents[d+"/f"] = &vEntC54{Kind: 'F', Inode: ino}
+		m.ents[d+"/g"] = &vEntC54{Kind: 'F', Inode: ino}
+		var st unix.Stat_t
+		m.fail(unix.Lstat(m.full(d+"/f"), &st))
+		inos, devs = append(inos, st.Ino), append(devs, uint64(st.Dev))
+		m.log = append(m.log, fmt.Sprintf("tmpfs %s: f,g ino=%d (fs inode %d dev %d) size=%d", d, ino, st.Ino, st.Dev, m.size[ino]))
+	}
+	if inos[0] == inos[1] && devs[0] != devs[1] {
+		m.flags["two-devices-same-inode-number"] = true
+	} else {
+		m.flags["two-devices-other-inode-numbers"] = true
+	}
 }
 
 var vDirsC54 = []string{"", "d1", "d2", "d1/s", "d2/t"}
@@ -266,7 +330,7 @@ func (m *vFSC54) snapshotModel(targets []string) vSnapModelC54 {
 			continue
 		}
 		paths[path.Join(rootAbs, p)] = true
-		if e.Kind == 'f' {
+		if e.Kind == 'f' || e.Kind == 'F' { // 'F': regular file on one of the tmpfs devices (never edited)
 			names[e.Inode] = append(names[e.Inode], p)
 		}
 	}
@@ -360,7 +424,15 @@ func TestVerifC54StatsRestoreSize(t *testing.T) {
 			t.Fatal(err)
 		}
 		m := &vFSC54{t: t, root: e.Scratch("root-"), outside: e.Scratch("outside-"), ents: map[string]*vEntC54{}, size: map[int]int{}, flags: map[string]bool{}}
+		defer m.unmount()
 		m.initial()
+		if rapid.IntRange(0, 2).Draw(t, "twodevices") == 0 {
+			if vTmpfsOKC54(e.base) {
+				m.twoDevices()
+			} else {
+				m.flags["tmpfs-mount-not-permitted"] = true
+			}
+		}
 
 		nSnap := rapid.SampledFrom([]int{1, 2, 2, 3, 3}).Draw(t, "snapshots")
 		var snaps []vSnapModelC54
